@@ -103,6 +103,7 @@ def rule_consumer_guards(P, R, rid):
             'XML-RPC: a result obtained across a new CHECKING entry passes the is_checking() guard')
     from . import shared
     shared.handshake_order(P, R, rid)
+    shared.discovery_eligibility(P, R, rid)
     u = P.unit('Context.on_identification_event')
     fm = factmap(u)
     idc = [c for c in own_nodes(u.node) if isinstance(c, ast.Call) and call_text(c) == 'self.mapper.identify']
